@@ -36,6 +36,24 @@ text = ["## 10. Seeded changes (realistic property-breaking edits) and what catc
         "`tools/seedall.sh` applies each to a scratch worktree and runs the quick checks of its property",
         "with a frozen copy of the verifier and ledgers; the outcome is stored in `seeded/<id>/result.json`.",
         "", "%d of %d caught at the commit of the last run." % (det, len(rows)), "",
+        "Five rounds (33, 20, 20, 36 and 12 changes; later rounds were told which functions earlier",
+        "rounds had used). Changes that were first MISSED and what was strengthened because of them",
+        "(every one is caught now): C15-3 second fork gate under contract; C17-3 and C01-5 `Import`",
+        "under contract (found two defects); C04-4 scripts issued from a tracer's QueueEnd hook; C06-4",
+        "out-of-order WhenQueue subscriptions, queue family also under C06; C11-3 exclusive groups sharing",
+        "one relation slice; C13-3 / C13-4 detached handlers, pending Eval, handler goroutine exit, and the",
+        "rule that a crashing stand-in is a violation; C17-1 the bounded history stand-in (completeness of",
+        "FindLatest); C03-6 Can* on already active states; C14-5 queue family under C14; C14-6 accessor",
+        "views read at every tracer hook; C05-5 two bindings of one struct type; C06-5 / C06-6 several",
+        "WhenQuery in one transition and context-bound waits; C08-6 / C08-8 abandoned handler and the",
+        "backoff window; C20-7 wait helpers under contract and the helpers stand-in; C13-6 WhenQueueEnds",
+        "after disposal; C04-6 mutations issued from an Eval func; C11-5 / C11-6 VerifyStates with a",
+        "repeated name, order after a fault; C20-8 concrete search for NEW failing obligations; C13-7 /",
+        "C13-8 shared WhenTime, late OnDispose; C17-8 Export inside a transition; C06-7 completed",
+        "context-bound multi-state When; C01-8 shared copy of the state names kept consistent. Earlier",
+        "rounds: see 8.2 (loop-head havoc found through C14-1) and the `check_props` entries of the",
+        "seeds that a neighbouring property's check catches (C01-4 by C02, C14-4 by C17). Still missed,",
+        "with the reason in the table: C15-2, C15-5, C16-6, C17-4.", "",
         "| seed | change | outcome of the check |", "|---|---|---|"] + rows + [""]
 s = open(V + "/DESIGN.md").read()
 a, b = "<!-- seedtable:begin -->", "<!-- seedtable:end -->"
